@@ -21,12 +21,13 @@ theorem isNone_iff (v : CVal) : v.isNone = true ↔ v = CVal.none := by
 
 def customVal (custom : List (String × CVal)) (k : String) : CVal := (custom.lookup k).getD CVal.none
 
-/-- what the translated `__getattribute__` computes from the three things it reads: the object's own attribute
-    `o`, the entry `x` of the code dict, and the module/environment -/
-def gaCore (o x : Option CVal) (env : Env) (px k : String) : CVal :=
+/-- what the translated `__getattribute__` computes from the three things it reads: the outcome `o` of the object's
+    own attribute lookup, the entry `x` of the code dict, and the module/environment -/
+def gaCore (o : OwnOut) (x : Option CVal) (env : Env) (px k : String) : CVal :=
   match o with
-  | some a => a
-  | none =>
+  | .value a => a
+  | .raises => CVal.other "raises"
+  | .attributeError =>
     let attr := x.getD CVal.none
     if attr.isNone then
       if !(moduleValue env px k).isSome then
@@ -36,19 +37,24 @@ def gaCore (o x : Option CVal) (env : Env) (px k : String) : CVal :=
          else (moduleValue env px k).getD CVal.none)
     else if attr.isCallable then attr.call else attr
 
-theorem lookup_core (custom : List (String × CVal)) (env : Env) (px k : String) :
-    lookup custom env px k = gaCore (ownAttr k) (custom.lookup k) env px k := by
-  cases ho : ownAttr k with
-  | some a => unfold lookup getAttribute gaCore; simp only [ho]
-  | none =>
+theorem getAttribute_core (own : String → OwnOut) (custom : List (String × CVal)) (env : Env) (px k : String) :
+    getAttribute own (some custom) env px k = gaCore (own k) (custom.lookup k) env px k := by
+  cases ho : own k with
+  | value a => unfold getAttribute gaCore; simp only [ho]
+  | raises => unfold getAttribute gaCore; simp only [ho]
+  | attributeError =>
     cases hc : custom.lookup k with
     | none =>
-      unfold lookup getAttribute gaCore
+      unfold getAttribute gaCore
       simp only [ho, dictHas, dictGet, hc, Option.isSome_some, Option.isSome_none, Bool.true_and,
         Bool.false_eq_true, if_false, Option.getD_none]
     | some v =>
-      unfold lookup getAttribute gaCore
+      unfold getAttribute gaCore
       simp only [ho, dictHas, dictGet, hc, Option.isSome_some, Bool.true_and, if_true, Option.getD_some]
+
+theorem lookup_core (custom : List (String × CVal)) (env : Env) (px k : String) :
+    lookup custom env px k = gaCore (ownStatic k) (custom.lookup k) env px k :=
+  getAttribute_core ownStatic custom env px k
 
 theorem env_arm (env : Env) (n : String) :
     (if (getenv env n).isNone then CVal.none else getenv env n) =
@@ -75,6 +81,24 @@ theorem module_arm (env : Env) (px k : String) :
   rw [env_arm, call_arm]
   cases moduleValue env px k <;> rfl
 
+/-- the chain below the object's own attributes: reached exactly when the own lookup raised AttributeError -/
+def chain (custom : List (String × CVal)) (env : Env) (px k : String) : CVal :=
+  if (customVal custom k).isNone then
+    (match moduleValue env px k with
+      | none => (match env.lookup ("DEEP_" ++ k) with
+          | none => CVal.none
+          | some s => CVal.str s)
+      | some v => callIt v)
+  else callIt (customVal custom k)
+
+theorem getAttribute_falls_through (own : String → OwnOut) (custom : List (String × CVal)) (env : Env) (px k : String)
+    (hown : own k = OwnOut.attributeError) :
+    getAttribute own (some custom) env px k = chain custom env px k := by
+  rw [getAttribute_core, hown]
+  unfold chain customVal gaCore
+  simp only [call_arm]
+  rw [← call_arm ((moduleValue env px k).getD CVal.none), module_arm]
+
 theorem lookup_foreign (custom : List (String × CVal)) (env : Env) (px k : String)
     (hk : ownNames.contains k = false) :
     lookup custom env px k =
@@ -85,11 +109,8 @@ theorem lookup_foreign (custom : List (String × CVal)) (env : Env) (px k : Stri
               | some s => CVal.str s)
           | some v => callIt v)
       else callIt (customVal custom k) := by
-  have hown : ownAttr k = none := by unfold ownAttr; rw [hk]; rfl
-  rw [lookup_core, hown]
-  unfold customVal gaCore
-  simp only [call_arm]
-  rw [← call_arm ((moduleValue env px k).getD CVal.none), module_arm]
+  have hown : ownStatic k = OwnOut.attributeError := by unfold ownStatic; rw [hk]; rfl
+  exact getAttribute_falls_through ownStatic custom env px k hown
 
 /-- **precedence** — for every name the object does not have of its own (`ownNames`: its methods, properties and
     instance attributes and everything every Python object has — the `__…__` names of `object`; the module's own
@@ -122,28 +143,65 @@ theorem c19_precedence (custom : List (String × CVal)) (env : Env) (px k : Stri
 
 /-! ### the translated `__getattribute__` itself -/
 
-/-- **an attribute the object has of its own wins** — whatever the code dict (including a `self.__custom` that is
-    `None`), the environment and the module say, and even when the code dict has an entry of that name
-    (`ConfigService({"plugins": 1}).plugins` is the plugin list): the `try` arm returns before anything else is
-    read. -/
-theorem c19_own_attribute_first (custom : Option (List (String × CVal))) (env : Env) (px k : String) (v : CVal)
-    (h : ownAttr k = some v) : getAttribute custom env px k = v := by
+/-- model lemma: the `try` arm of the translated `__getattribute__` — when `super().__getattribute__(name)` RETURNS
+    (`own k = .value v`: an instance attribute, a method, a property whose getter returned), that value is the result
+    whatever the code dict (including a `self.__custom` that is `None`, or an entry of the same name:
+    `ConfigService({"plugins": 1}).plugins` is the plugin list), the environment and the module say.  `own` is ANY
+    outcome function; for the object as `__init__` leaves it, it is the static table `ownStatic` (hypothesis of
+    `c19_precedence`). -/
+theorem c19_own_attribute_first (own : String → OwnOut) (custom : Option (List (String × CVal))) (env : Env)
+    (px k : String) (v : CVal) (h : own k = OwnOut.value v) : getAttribute own custom env px k = v := by
   unfold getAttribute
   simp only [h]
 
+/-- **the code decides "own" by whether the lookup raised AttributeError, not by the name** — when
+    `super().__getattribute__(name)` raises AttributeError the result is the chain below (code dict entry, called if
+    callable; else module attribute; else `DEEP_<name>`; else `None`) — for a name the object does not have, AND for an
+    own PROPERTY whose getter raised AttributeError: the failure is swallowed and the code-dict / environment value of
+    that name is handed out (finding candidate `C19/own-getter-attributeerror-falls-through`, witness below, probe
+    notes/probes/c19_own_getter_attribute_error.py). -/
+theorem c19_attribute_error_falls_through (own : String → OwnOut) (custom : List (String × CVal)) (env : Env)
+    (px k : String) (hown : own k = OwnOut.attributeError) :
+    getAttribute own (some custom) env px k = chain custom env px k :=
+  getAttribute_falls_through own custom env px k hown
+
+/-- any other exception of the own lookup (a getter raising ValueError, …) propagates: nothing else is read -/
+theorem c19_own_lookup_raises (own : String → OwnOut) (custom : Option (List (String × CVal))) (env : Env)
+    (px k : String) (h : own k = OwnOut.raises) : getAttribute own custom env px k = CVal.other "raises" := by
+  unfold getAttribute
+  simp only [h]
+
+/-- witness: with the getter of the own property `tracepoint_logger` raising AttributeError the code entry of that
+    name is returned, `has_span_processor` resolves to `DEEP_has_span_processor`; with the getters returning, the
+    own values win (replayed on the implementation). -/
+theorem c19_own_getter_attribute_error_witness :
+    let broken : String → OwnOut := fun n =>
+      if n == "tracepoint_logger" || n == "has_span_processor" then OwnOut.attributeError else ownStatic n
+    getAttribute broken (some [("tracepoint_logger", CVal.str "CODE VALUE")]) [] "/px" "tracepoint_logger"
+        = CVal.str "CODE VALUE" ∧
+      getAttribute broken (some []) [("DEEP_has_span_processor", "ENVTEXT")] "/px" "has_span_processor"
+        = CVal.str "ENVTEXT" ∧
+      getAttribute ownStatic (some [("tracepoint_logger", CVal.str "CODE VALUE")]) [] "/px" "tracepoint_logger"
+        = CVal.other "own attribute tracepoint_logger" := ⟨by rfl, by rfl, by rfl⟩
+
+/-- a module attribute that is a class (`ConfigService`, imported into deep.config) is callable: it is CALLED and the
+    new instance handed out, like the module functions -/
+theorem c19_module_class_called :
+    lookup [] [] "/px" "ConfigService" = CVal.other "instance of ConfigService" := by rfl
+
 /-- **the `self.__custom is not None` guard** — an object whose custom dict is `None` resolves every name exactly
     as one with an empty dict (no exception from `name in None`): module attribute, else `DEEP_<name>`, else `None`. -/
-theorem c19_custom_none_as_empty (env : Env) (px k : String) :
-    getAttribute none env px k = getAttribute (some []) env px k := by
+theorem c19_custom_none_as_empty (own : String → OwnOut) (env : Env) (px k : String) :
+    getAttribute own none env px k = getAttribute own (some []) env px k := by
   unfold getAttribute
-  cases ownAttr k <;> rfl
+  cases own k <;> rfl
 
 /-- a value given in code wins whatever the environment (and the interpreter prefix) is -/
 theorem c19_code_beats_environment (custom : List (String × CVal)) (env env' : Env) (px px' k : String) (v : CVal)
     (hv : custom.lookup k = some v) (hn : v.isNone = false) :
     lookup custom env px k = lookup custom env' px' k := by
   by_cases hk : ownNames.contains k = true
-  · rw [lookup_core, lookup_core]; unfold ownAttr; rw [hk]; rfl
+  · rw [lookup_core, lookup_core]; unfold ownStatic; rw [hk]; rfl
   · have hk' : ownNames.contains k = false := by simpa using hk
     rw [(c19_precedence custom env px k hk').1 v hv hn, (c19_precedence custom env' px' k hk').1 v hv hn]
 
@@ -635,11 +693,11 @@ example : (World.mk [] [("DEEP_POLL_TIMER", "0.25")] "/px").use "POLL_TIMER" = s
 
 /-- the translated `__getattribute__`: own attribute before the code dict; a `None` custom dict; a code `None` falls
     through to the module default, an unknown name to `DEEP_<name>`, a callable is called, nothing found = `None` -/
-example : getAttribute (some [("plugins", CVal.int 1)]) [] "/px" "plugins" = CVal.other "own attribute plugins" ∧
-    getAttribute none [("DEEP_X", "e")] "/px" "X" = CVal.str "e" ∧
-    getAttribute (some [("POLL_TIMER", CVal.none)]) [] "/px" "POLL_TIMER" = CVal.int 10 ∧
-    getAttribute (some [("X", CVal.callable (CVal.int 3))]) [("DEEP_X", "e")] "/px" "X" = CVal.int 3 ∧
-    getAttribute (some []) [] "/px" "X" = CVal.none := ⟨by rfl, by rfl, by rfl, by rfl, by rfl⟩
+example : getAttribute ownStatic (some [("plugins", CVal.int 1)]) [] "/px" "plugins" = CVal.other "own attribute plugins" ∧
+    getAttribute ownStatic none [("DEEP_X", "e")] "/px" "X" = CVal.str "e" ∧
+    getAttribute ownStatic (some [("POLL_TIMER", CVal.none)]) [] "/px" "POLL_TIMER" = CVal.int 10 ∧
+    getAttribute ownStatic (some [("X", CVal.callable (CVal.int 3))]) [("DEEP_X", "e")] "/px" "X" = CVal.int 3 ∧
+    getAttribute ownStatic (some []) [] "/px" "X" = CVal.none := ⟨by rfl, by rfl, by rfl, by rfl, by rfl⟩
 
 example : isAppFrame ["/app/src", "/opt/shared"] ["/app/src/vendor", "/px"] "/app" "/app/src/vendor/x.py"
       = (false, some "/app/src/vendor") ∧
